@@ -14,8 +14,8 @@ print(f"""You are helping to evaluate a verification effort by seeding realistic
 The library is jmschrei/tangermeme (PyTorch genomics toolkit). You have your OWN scratch git worktree of it at {wt} .
 Work ONLY inside {wt} . Do NOT read, list or use anything under /verif, and do not modify /repo. Run python as
 `cd {wt} && PYTHONPATH={wt} /venv/bin/python ...` (check once that `import tangermeme; print(tangermeme.__file__)` points into {wt}).
-The existing test-suite is run with `cd {wt} && PYTHONPATH={wt} /venv/bin/python -m pytest -q -p no:cacheprovider --timeout=900 tests` (about 2-3 minutes;
-14 tests fail on the pristine tree already: the 7 test_captum_* tests, 2 tests in tests/tools/test_cmd_tomtom.py and 5 `*pwm_to_mapping*` tests in tests/tools/test_fimo.py -- ignore those, but no OTHER test may start failing).
+The existing test-suite is run with `cd {wt} && OMP_NUM_THREADS=1 MKL_NUM_THREADS=1 PYTHONPATH={wt} /venv/bin/python -m pytest -q -p no:cacheprovider --timeout=900 -n 6 tests` (pytest-xdist is installed; keep OMP_NUM_THREADS=1 - the machine is shared and over-subscription makes the run take 10x longer; about 3-5 minutes;
+9 tests fail on the pristine tree already: the 7 test_captum_* tests and 2 tests in tests/tools/test_cmd_tomtom.py -- ignore those, but no OTHER test may start failing; run the suite once on the pristine tree first to see the baseline).
 There is no network.
 
 Here is a semantic property of the library that users rely on:
@@ -28,7 +28,7 @@ Here is a semantic property of the library that users rely on:
 
 TASK: produce {n} DIFFERENT source changes (mutants) to the library (files under {wt}/tangermeme only), each of which
   (a) BREAKS the property above (a user relying on the statement would get a wrong result, a missing/extra rejection, or a modified input),
-  (b) still imports/compiles, and the existing test-suite still passes exactly as before (same 14 known failures, nothing new),
+  (b) still imports/compiles, and the existing test-suite still passes exactly as before (same known failures, nothing new),
   (c) looks like a plausible bug a maintainer could introduce in a refactor/optimisation/"fix" -- not sabotage, no dead code, no random/time-dependent behaviour,
   (d) needs something SPECIFIC to manifest: an unusual input or parameter combination, a boundary value, a particular sequence of calls, a particular
       thread count/batch size/ordering, a fault at a particular point, or two cooperating sites that each look fine alone.
